@@ -525,6 +525,111 @@ fn run_rt(clock: &Clock, cfg: &Value) {
     }
 }
 
+/// `sock`: the same round trips over the shipped socket transports (`serde_transport::tcp` / `unix`: listen, connect,
+/// accept) on the loopback interface / a socket file.  The runtime's clock stays paused (no timers are armed, so the
+/// runtime simply waits for I/O), deadlines therefore cross the wire unchanged.  Events are those of `rt`.
+fn run_sock(cfg: &Value) {
+    use futures::{SinkExt, StreamExt};
+    let codec = cfg["codec"].as_str().unwrap_or("json").to_string();
+    let dir = cfg["dir"].as_str().unwrap_or("c2s").to_string();
+    let medium = cfg["medium"].as_str().unwrap_or("tcp").to_string();
+    let close = cfg["close"].as_str().unwrap_or("drop").to_string();
+    let msgs = str_list(cfg, "msgs");
+    let rt = tokio::runtime::Builder::new_current_thread().enable_all().start_paused(true).build().unwrap();
+    let clock = Clock { t0: { let _g = rt.enter(); tokio::time::Instant::now() }, rt };
+    let clock = &clock;
+
+    async fn pump<W, R, SI, I, WE, RE>(mut w: W, mut r: R, items: Vec<SI>, dw: &dyn Fn(&SI) -> Value, dr: &dyn Fn(&I) -> Value, close: &str)
+    where
+        W: Sink<SI, Error = WE> + Unpin,
+        R: Stream<Item = Result<I, RE>> + Unpin,
+        WE: std::fmt::Debug,
+        RE: std::fmt::Debug,
+    {
+        let n = items.len() as u64;
+        let writer = async {
+            let mut i = 0u64;
+            for it in items {
+                let d = dw(&it);
+                match w.feed(it).await {
+                    Ok(()) => {
+                        i += 1;
+                        emit("Written", json!({"i": i, "d": d}));
+                    }
+                    Err(e) => {
+                        emit("WriteErr", json!({"msg": format!("{:?}", e).chars().take(120).collect::<String>()}));
+                        break;
+                    }
+                }
+                if let Err(e) = w.flush().await {
+                    emit("WriteErr", json!({"msg": format!("{:?}", e).chars().take(120).collect::<String>()}));
+                    break;
+                }
+            }
+            if close == "close" {
+                let _ = w.close().await;
+            }
+            emit("WriterEnd", json!({"how": close, "n": i.min(n)}));
+            drop(w);
+        };
+        let reader = async {
+            let mut k = 0u64;
+            loop {
+                match r.next().await {
+                    Some(Ok(it)) => {
+                        k += 1;
+                        emit("Read", json!({"i": k, "d": dr(&it)}));
+                    }
+                    Some(Err(e)) => {
+                        emit("ReadErr", json!({"msg": format!("{:?}", e).chars().take(120).collect::<String>()}));
+                        break;
+                    }
+                    None => {
+                        emit("Eos", json!({"n": k}));
+                        break;
+                    }
+                }
+            }
+        };
+        futures::join!(writer, reader);
+    }
+
+    let dcm = |m: &ClientMessage<String>| describe_cm(clock, m);
+    let drs = |m: &Response<String>| describe_resp(m);
+    let c2s: Vec<ClientMessage<String>> = msgs.iter().enumerate().map(|(i, c)| client_msg(clock, c, i as u64 + 1)).collect();
+    let s2c: Vec<Response<String>> = msgs.iter().enumerate().map(|(i, c)| response_msg(c, i as u64 + 1)).collect();
+    type CM = ClientMessage<String>;
+    type RS = Response<String>;
+    macro_rules! go {
+        ($m:ident, $addr:expr, $local:expr, $cf:expr) => {{
+            clock.rt.block_on(async {
+                let mut inc = tarpc::serde_transport::$m::listen::<_, CM, RS, _, _>($addr, $cf).await.expect("listen");
+                let target = $local(&inc);
+                let client = tarpc::serde_transport::$m::connect::<_, RS, CM, _, _>(target, $cf).await.expect("connect");
+                let server = inc.next().await.expect("accept").expect("accept ok");
+                if dir == "c2s" {
+                    pump(client, server, c2s, &dcm, &dcm, &close).await;
+                } else {
+                    pump(server, client, s2c, &drs, &drs, &close).await;
+                }
+            })
+        }};
+    }
+    match (medium.as_str(), codec.as_str()) {
+        ("tcp", "json") => go!(tcp, "127.0.0.1:0", |i: &tarpc::serde_transport::tcp::Incoming<CM, RS, _, _>| i.local_addr(), Json::default),
+        ("tcp", _) => go!(tcp, "127.0.0.1:0", |i: &tarpc::serde_transport::tcp::Incoming<CM, RS, _, _>| i.local_addr(), Bincode::default),
+        (_, c) => {
+            let path = tarpc::serde_transport::unix::TempPathBuf::with_random("vh_sock");
+            let p2 = path.as_ref().to_path_buf();
+            if c == "json" {
+                go!(unix, &path, |_i: &tarpc::serde_transport::unix::Incoming<CM, RS, _, _>| p2.clone(), Json::default)
+            } else {
+                go!(unix, &path, |_i: &tarpc::serde_transport::unix::Incoming<CM, RS, _, _>| p2.clone(), Bincode::default)
+            }
+        }
+    }
+}
+
 fn frame(payload: &[u8]) -> Vec<u8> {
     let mut b = BytesMut::new();
     b.put_u32(payload.len() as u32);
@@ -990,6 +1095,18 @@ pub fn run(a: &Args) -> Value {
                 json!({"kind": "rt", "codec": codec2, "dir": dir, "msgs": msgs, "rscript": rs, "wscript": ws,
                        "transit": transit, "close": close, "cap": rng.gen_range(1..3u64), "iobuf": iobuf, "fscript": fs})
             }
+            "sock" => {
+                let c2s = ["req", "req-id0", "req-idmax", "req-id32", "req-empty", "req-unicode", "req-large", "req-past", "req-now", "cancel", "cancel-idmax"];
+                let s2c = ["resp", "resp-idmax", "resp-unicode", "resp-large", "err:NotFound", "err:WouldBlock", "err:UnexpectedEof", "err:Unsupported", "err:OutOfMemory"];
+                let dir = ["c2s", "s2c"][rng.gen_range(0..2)];
+                let pool: &[&str] = if dir == "c2s" { &c2s } else { &s2c };
+                let n = rng.gen_range(0..8);
+                let msgs: Vec<&str> = (0..n).map(|_| pool[rng.gen_range(0..pool.len())]).collect();
+                let codec2 = ["json", "bincode"][rng.gen_range(0..2)];
+                let medium = ["tcp", "uds"][rng.gen_range(0..2)];
+                let close = ["drop", "close"][rng.gen_range(0..2)];
+                json!({"kind": "sock", "codec": codec2, "medium": medium, "dir": dir, "msgs": msgs, "transit": 0, "close": close})
+            }
             "garbage" => {
                 let dir = ["c2s", "s2c"][rng.gen_range(0..2)];
                 let mode = ["mutate", "random", "truncate"][rng.gen_range(0..3)];
@@ -1021,13 +1138,14 @@ pub fn run(a: &Args) -> Value {
         exec::log_begin_scenario(scn);
         let clock = Clock::new();
         let kind = s.cfg["kind"].as_str().unwrap_or("rt").to_string();
-        emit("Reset", json!({"id": s.id, "kind": kind, "codec": s.cfg.get("codec").cloned().unwrap_or(json!("")),
+        emit("Reset", json!({"id": s.id, "kind": if kind == "sock" { "rt" } else { kind.as_str() }, "codec": s.cfg.get("codec").cloned().unwrap_or(json!("")),
                              "transit": s.cfg.get("transit").cloned().unwrap_or(json!(0)),
                              "close": s.cfg.get("close").cloned().unwrap_or(json!("drop")),
                              "age_days": s.cfg.get("age_days").cloned().unwrap_or(json!(0)),
                              "sub": sub}));
         let r = exec::catch(|| match kind.as_str() {
             "rt" => run_rt(&clock, &s.cfg),
+            "sock" => run_sock(&s.cfg),
             "kinds" => run_kinds(&clock, &s.cfg),
             "omit" => run_omit(&clock, &s.cfg),
             "garbage" => run_garbage(&clock, &s.cfg),
